@@ -323,9 +323,22 @@ class Peg2Re:
                 raise NotRegular(f"unknown rule {name}")
             if name in self.stack:
                 raise NotRegular(f"recursive through {name}")
+            body = self.rules[name][1]
+            # right recursion  X = A* ~ (B ~ X)?   ==   A* (B A*)*
+            if body[0] == "seq" and len(body[1]) == 2 and body[1][0][0] == "star" and body[1][1][0] == "opt":
+                tail = body[1][1][1]
+                if tail[0] == "seq" and len(tail[1]) == 2 and tail[1][1] == ("id", name):
+                    self.stack.append(name)
+                    try:
+                        a = self.tr(body[1][0][1])
+                        b = self.tr(tail[1][0])
+                    finally:
+                        self.stack.pop()
+                    self.require_disjoint(a, b, "right-recursive loop whose body and separator can match the same prefix")
+                    return ("cat", [("star", a), ("star", ("cat", [b, ("star", a)]))])
             self.stack.append(name)
             try:
-                return self.tr(self.rules[name][1])
+                return self.tr(body)
             finally:
                 self.stack.pop()
         if k == "seq":
@@ -382,11 +395,6 @@ class Peg2Re:
         """No input may have a prefix in L(a) and a prefix in L(b) where both are non-empty."""
         self.checks += 1
         sigma = ("star", ANY)
-        nonempty = ~Lang.of(("eps",))
-        la = Lang.of(("cat", [a, sigma])) & nonempty
-        lb = Lang.of(("cat", [b, sigma])) & nonempty
-        # a's non-empty words vs b's non-empty words
-        la = Lang.of(("cat", [a, sigma])) & ~Lang.of(("cat", [("eps",)]))
         w, _ = witness((Lang.of(("cat", [_nonempty(a), sigma]))) & (Lang.of(("cat", [_nonempty(b), sigma]))))
         if w is not None:
             raise NotRegular(f"{why} (e.g. input {w!r})")
